@@ -285,6 +285,79 @@ def _roles(chk, j):
     return R, asg
 
 
+
+def _index_facts(j, R, asg, env):
+    """helpers for the index spelling of join: which (structure, atom) an index local stands for; which atom a row mask drops;
+    which atom of the product an index expression addresses"""
+    roles = set(R.values())
+
+    def idx_of(e, depth=0):
+        """(structure, atom) when `e` is the index of `atom` in `structure`"""
+        if isinstance(e, ast.Name) and depth < 4:
+            vals = asg.get(e.id, [])
+            if len(vals) == 1:
+                v = vals[0]
+                if isinstance(v, tuple) and v[0] == "unpack" and isinstance(v[1], ast.Call) and isinstance(v[1].func, ast.Attribute) \
+                        and v[1].func.attr in ("get_atom_indices",) and v[2] < len(v[1].args):
+                    return norm(v[1].func.value), norm(env.expand(v[1].args[v[2]], keep=roles))
+                if isinstance(v, ast.AST):
+                    return idx_of(v, depth + 1)
+            return None
+        if isinstance(e, ast.Call) and isinstance(e.func, ast.Attribute) and len(e.args) == 1:
+            if e.func.attr in ("get_atom_index", "index_atom"):
+                return norm(e.func.value), norm(env.expand(e.args[0], keep=roles))
+            if e.func.attr == "index" and isinstance(e.func.value, ast.Attribute) and e.func.value.attr == "atoms":
+                return norm(e.func.value.value), norm(env.expand(e.args[0], keep=roles))
+        return None
+
+    def mask_drops(e, depth=0):
+        """(structure, atom) when `e` is a boolean row mask of `structure` that is False exactly at `atom`"""
+        if isinstance(e, ast.Name) and depth < 4:
+            vals = [v for v in asg.get(e.id, []) if isinstance(v, ast.AST)]
+            return mask_drops(vals[0], depth + 1) if len(vals) == 1 else None
+        if isinstance(e, ast.Compare) and len(e.ops) == 1 and isinstance(e.ops[0], ast.NotEq) and isinstance(e.left, ast.Call) and (call_name(e.left) or "").endswith("arange") \
+                and len(e.left.args) == 1 and norm(e.left.args[0]).endswith(".n_atoms"):
+            st = norm(e.left.args[0])[: -len(".n_atoms")]
+            io = idx_of(e.comparators[0])
+            if io is not None and io[0] == st:
+                return io
+            return (st, None)
+        return None
+
+    def position(e):
+        """dict(struct, atom, dropped, offset) when `e` = J - (J > I) [+ offset]: the place of atom J in a list from which atom I was removed"""
+        terms = []
+
+        def flat(x, sign):
+            if isinstance(x, ast.BinOp) and isinstance(x.op, (ast.Add, ast.Sub)):
+                flat(x.left, sign)
+                flat(x.right, sign if isinstance(x.op, ast.Add) else -sign)
+            else:
+                terms.append((sign, x))
+        flat(env.expand(e, keep=roles | set(asg)), 1)
+        cmp_ = [(sg, t) for sg, t in terms if isinstance(t, ast.Compare) or (isinstance(t, ast.Call) and call_name(t) == "int" and t.args and isinstance(t.args[0], ast.Compare))]
+        if len(cmp_) != 1 or cmp_[0][0] != -1:
+            return None
+        c = cmp_[0][1]
+        c = c.args[0] if isinstance(c, ast.Call) else c
+        if len(c.ops) != 1:
+            return None
+        if isinstance(c.ops[0], ast.Gt):
+            jn, i_n = c.left, c.comparators[0]
+        elif isinstance(c.ops[0], ast.Lt):
+            jn, i_n = c.comparators[0], c.left
+        else:
+            return None
+        rest = [(sg, t) for sg, t in terms if t is not cmp_[0][1]]
+        jt = [(sg, t) for sg, t in rest if norm(t) == norm(jn)]
+        if len(jt) != 1 or jt[0][0] != 1:
+            return None
+        off = sorted(("-" if sg < 0 else "+") + norm(t) for sg, t in rest if t is not jt[0][1])
+        J, I = idx_of(jn), idx_of(i_n)
+        return dict(J=J, I=I, offset=off, text=norm(e))
+
+    return idx_of, mask_drops, position
+
 def r4_constitution(chk, j):
     from ..canon import Env, conjuncts, structured
 
@@ -315,6 +388,20 @@ def r4_constitution(chk, j):
         ok = it in (f"chain({s1}.atoms, {s2}.atoms)", f"itertools.chain({s1}.atoms, {s2}.atoms)", f"{s1}.atoms + {s2}.atoms") and norm(al[0].elt) == t and filt in (
             [f"{t} not in {{{a1}, {a2}}}"], [f"{t} not in ({a1}, {a2})"], [f"{t} not in [{a1}, {a2}]"], [f"{t} is not {a1} and {t} is not {a2}"], [f"{t} not in {{{a2}, {a1}}}"])
         detail = f"[{norm(al[0].elt)} for {t} in {it} if {filt}]"
+    idx_of, mask_drops, position = _index_facts(j, R, asg, env)
+    if not ok and len(al) == 1 and isinstance(al[0].generators[0].target, ast.Tuple) and len(al[0].generators[0].target.elts) == 2:
+        # [a for a, keep in zip(chain(s1.atoms, s2.atoms), chain(mask1, mask2)) if keep]
+        g = al[0].generators[0]
+        t_, k_ = [norm(x) for x in g.target.elts]
+        z = g.iter
+        if isinstance(z, ast.Call) and call_name(z) == "zip" and len(z.args) == 2 and norm(al[0].elt) == t_ and [norm(x) for x in g.ifs] == [k_] \
+                and norm(z.args[0]) in (f"chain({s1}.atoms, {s2}.atoms)", f"itertools.chain({s1}.atoms, {s2}.atoms)") \
+                and isinstance(z.args[1], ast.Call) and (call_name(z.args[1]) or "").endswith("chain") and len(z.args[1].args) == 2:
+            d1, d2 = mask_drops(z.args[1].args[0]), mask_drops(z.args[1].args[1])
+            if d1 is None or d2 is None:
+                raise AnalysisError(f"join: the keep-masks `{norm(z.args[1])}` of the atom list are not row masks of a known form")
+            ok = d1 == (s1, a1) and d2 == (s2, a2)
+            detail = f"every atom of {s1} then {s2} whose mask entry is true; the masks drop {d1} and {d2}"
     chk.decide(ok, "C12.R4", f"{j.key}:atoms", j.where(al[0] if al else None), f"all atoms of {s1} then {s2} except {a1} and {a2}",
                f"the product's atom list is {detail}; expected every atom of {s1} then {s2} except the two attachment points")
     ctor = [c for c in walk_no_nested(src) if isinstance(c, ast.Call) and call_name(c) == "cls"]
@@ -349,6 +436,28 @@ def r4_constitution(chk, j):
         a0 = arg0[id(fresh[0])]
         ends = [norm(x) for x in a0.args[:2]] if isinstance(a0, ast.Call) else []
         ok = isinstance(a0, ast.Call) and call_name(a0) == "Bond" and ends in ([f"{res}.atoms[{atoms}.index({n1})]", f"{res}.atoms[{atoms}.index({n2})]"], [f"{amap}[{n1}]", f"{amap}[{n2}]"])
+        if not ok and isinstance(a0, ast.Call) and call_name(a0) == "Bond" and len(a0.args) >= 2 and all(
+                isinstance(x, ast.Subscript) and norm(x.value) == f"{res}.atoms" for x in a0.args[:2]):
+            # the product's atoms addressed by position: place of the neighbour in its own structure, less one if it sat behind the
+            # attachment point that was removed, plus (for the second structure) the number of atoms kept from the first
+            want = [(s1, n1, a1, []), (s2, n2, a2, sorted([f"+{s1}.n_atoms", "-1"]))]
+            probs = []
+            for x, (st_, nb_, ap_, off_) in zip(a0.args[:2], want):
+                ps = position(x.slice)
+                if ps is None or ps["J"] is None or ps["I"] is None:
+                    raise AnalysisError(f"join: the new bond addresses the product by `{norm(x.slice)}` - index arithmetic of an unknown form")
+                if ps["J"] != (st_, nb_):
+                    probs.append(f"`{ps['text']}` starts from the index of {ps['J'][1]} in {ps['J'][0]}, not of {nb_} in {st_}")
+                if ps["I"] != (st_, ap_):
+                    probs.append(f"`{ps['text']}` corrects for the removal of {ps['I'][1]} from {ps['I'][0]}; the atom removed in front of {nb_} is {ap_} of {st_}")
+                if ps["offset"] != off_:
+                    probs.append(f"`{ps['text']}` is shifted by {ps['offset'] or 'nothing'}; the atoms of {st_} start at {' '.join(off_) or '0'} in the product")
+            ok = not probs
+            if probs:
+                kws = {k.arg: norm(k.value) for k in a0.keywords}
+                chk.fail("C12.R4", f"{j.key}:one-new-bond", j.where(fresh[0]), "the new bond is not placed between the copies of the two former neighbours: " + "; ".join(probs) +
+                         " - for some atom orders the bond goes to the atom listed next to the neighbour")
+                return
         kws = {k.arg: norm(k.value) for k in a0.keywords} if isinstance(a0, ast.Call) else {}
         ok = ok and kws.get("btype") == "btype" and kws.get("stereo") == "bstereo" and kws.get("f_order") == "bforder"
     chk.decide(ok, "C12.R4", f"{j.key}:one-new-bond", j.where(fresh[0] if fresh else None), f"exactly one fresh Bond between the copies of {n1} and {n2} with the requested type",
@@ -379,6 +488,16 @@ def r5_geometry_order(chk, j):
         mk = [m for s_, m in masks if s_ == st]
         vals = [norm(x) for nm in mk for x in asg.get(nm, []) if isinstance(x, ast.AST)]
         okm = len(vals) == 1
+        if len(mk) == 1 and not (vals and vals[0].startswith(("~np.array", "np.array"))):
+            from ..canon import Env as _Env
+
+            _, mask_drops, _ = _index_facts(j, R, asg, _Env(j.node))
+            d = mask_drops(ast.Name(mk[0], ast.Load()))
+            if d is None:
+                raise AnalysisError(f"join: the row mask `{mk[0]}` applied to {st}.coords is not of a known form")
+            chk.decide(d == (st, ap), "C12.R5", f"{j.key}:mask:{tag}", j.where(), f"{vals[0] if vals else mk[0]} drops row of {ap}",
+                       f"the row mask applied to {st}.coords drops {d[1]} of {d[0]}; it must drop exactly the attachment point {ap} of {st} so that rows and atoms stay aligned")
+            continue
         if okm:
             import re as _re
             m = _re.fullmatch(r"~np\.array\(\[(\w+) == (\w+) for (\w+) in (\w+)\.atoms\]\)", vals[0]) or _re.fullmatch(r"np\.array\(\[(\w+) (?:!=|is not) (\w+) for (\w+) in (\w+)\.atoms\]\)", vals[0])
